@@ -149,6 +149,23 @@ def gen_mismatch(rng, backend):
                 succ=[False] + [True] * len(mid) + [False])
 
 
+def gen_evolving(rng, backend):
+    """three or four successor programs whose register changes in a middle segment (New or Del): every later
+    program can follow its predecessor only, not the first program"""
+    n = rng.randint(2, 3)
+    g = lambda m: dict(cls="Rgate", regs=[m], pars=[pg.dyadic(rng, -6, 6, nonzero=True)], dagger=rng.random() < 0.3)
+    d = lambda m: dict(cls="Dgate", regs=[m], pars=[pg.dyadic(rng, -2, 2, nonzero=True) / 2, 0.25])
+    if rng.random() < 0.5:
+        change, live = dict(cls="New", k=1), list(range(n + 1))
+    else:
+        dead = rng.randrange(n)
+        change, live = dict(cls="Del", regs=[dead]), [m for m in range(n) if m != dead]
+    segs = [[d(rng.randrange(n))], [g(rng.randrange(n)), change], [d(rng.choice(live)), g(rng.choice(live))]]
+    if rng.random() < 0.4:
+        segs.append([g(rng.choice(live))])
+    return dict(backend=backend, n=n, opts=OPTS[backend], segs=segs, args={}, succ=[False] + [True] * (len(segs) - 1))
+
+
 def cross_deps(spec):
     """does a segment read a measured value it has not measured itself (feed-forward across a boundary)?"""
     for j, seg in enumerate(spec["segs"]):
@@ -827,6 +844,8 @@ def run(ctx, sf):
             spec = gen_session(rng, backend, cross=(k % 4 == 3))
             if k % 6 == 5 and backend != "bosonic":
                 spec = gen_mismatch(rng, backend)
+            if k % 6 == 2 and backend != "bosonic":
+                spec = gen_evolving(rng, backend)
             one_session(ctx, sf, spec, reqs, pending)
             if k % 2 == 0:
                 reset_and_compile_checks(ctx, sf, spec)
